@@ -35,7 +35,7 @@ MISSING = {"v_dd_int": lambda: collections.defaultdict(int, {"a": 0}),
            "v_counter": lambda: collections.Counter({"a": 0})}
 COLLIDING = ("v_zero", "v_fzero", "v_false", "v_str", "v_bytes")
 COLLIDING_LISTS = ("v_one_list", "v_fone_list", "v_true_list")
-NPOOL = 6
+NPOOL = 6   # members with the full event set; member 6 (a regex str) has three events
 
 
 class _Opaque:
@@ -51,10 +51,12 @@ class State:
         self.L0 = [schema.int, schema.str("a")]
         self.D0 = {"a": schema.int, optional("b"): schema.str}
         self.V0 = [0, {"a": [1]}]
+        self.E0 = []              # a caller-owned empty list (nothing in it to convert or copy)
         self.pool = [schema.int.min(0), schema.str.len(1, 2), schema.list(self.L0),
                      schema.dict(self.D0), schema.any(schema.int, schema.str),
-                     schema.list(schema.int)]
-        self.names = ["int.min(0)", "str.len(1,2)", "list(L0)", "dict(D0)", "any(int,str)", "list(int)"]
+                     schema.list(schema.int), schema.str.regex("\\d\\w[^a]")]
+        self.names = ["int.min(0)", "str.len(1,2)", "list(L0)", "dict(D0)", "any(int,str)", "list(int)",
+                      "str.regex"]
         self.entry = []           # snapshot of each pooled schema when it entered
         self.G = None             # last container returned by fake
         self.R = None             # last ValidationResult
@@ -102,9 +104,11 @@ def events():
     ev += [("from_native_v", vn) for vn in COLLIDING]
     for vn in MISSING:
         ev += [("validate", 3, vn), ("subst", 3, vn), ("eq_value", 3, vn)]
+    ev += [("repr", 6), ("gen", 6), ("validate", 6, "v_str"), ("second_instances",),
+           ("subst", 5, "E0"), ("subst_untyped_E0",), ("from_native_E0",)]
     ev += [("subst_untyped", vn) for vn in COLLIDING_LISTS]
     ev += [("subst_untyped_dict", vn) for vn in COLLIDING[:3]]
-    muts = [("mut", "L0.append"), ("mut", "L0.clear"), ("mut", "L0.setitem"), ("mut", "D0.set"),
+    muts = [("mut", "E0.append"), ("mut", "L0.append"), ("mut", "L0.clear"), ("mut", "L0.setitem"), ("mut", "D0.set"),
             ("mut", "D0.del"), ("mut", "V0.append"), ("mut", "V0.nested"), ("mut", "G"),
             ("mut", "R"), ("mut", "K")]
     return ev + muts
@@ -123,7 +127,28 @@ def operand(st, x):
 def value(st, name):
     if name in MISSING:
         return MISSING[name]()
+    if name == "E0":
+        return st.E0
     return st.V0 if name == "V0" else VALS[name]
+
+
+def second_instances():
+    """Other, differently configured instances of the visitor classes are created and used
+    (public constructors and arguments); what they produce is not looked at."""
+    from d42.generation import Generator, Random, RegexGenerator
+    from d42.representation import Representor
+    from d42.validation import Validator
+    from th import PathHolder
+    rg = RegexGenerator(Random(), alphabet={"digits": "0123456789abcdef", "word": "ab-", "letters": "ab~"},
+                        max_repeat=3)
+    g = Generator(Random(), rg)
+    probe = schema.dict({"a": schema.str.regex("\\d\\w+[^a]"), optional("b"): schema.list(schema.int)})
+    for visitor, kw in ((g, {}), (Representor("s", indent=2), {}),
+                        (Validator(path_holder_factory=lambda: PathHolder("root")), {"value": {"a": 1}})):
+        try:
+            probe.__accept__(visitor, **kw)
+        except Exception:  # noqa: BLE001
+            pass
 
 
 def step(st, e, rng):
@@ -191,6 +216,13 @@ def step(st, e, rng):
             return substitute(schema.list, arg(e[1], VALS[e[1]])), args
         if k == "subst_untyped_dict":
             return substitute(schema.dict, arg(e[1], {"n": VALS[e[1]]})), args
+        if k == "second_instances":
+            second_instances()
+            return None, args
+        if k == "subst_untyped_E0":
+            return substitute(schema.list, arg("E0", st.E0)), args
+        if k == "from_native_E0":
+            return from_native(arg("E0", st.E0)), args
         if k == "eq_value":
             v = arg(e[2], value(st, e[2]))
             a = operand(st, e[1])
@@ -200,7 +232,9 @@ def step(st, e, rng):
             return ("eq", a == b, a != b), args
         if k == "mut":
             m = e[1]
-            if m == "L0.append":
+            if m == "E0.append":
+                st.E0.append(7)
+            elif m == "L0.append":
                 st.L0.append(schema.none)
             elif m == "L0.clear":
                 st.L0.clear()
